@@ -42,6 +42,27 @@ CLAIMS["C06"] = dict(
     text="TLC checks over all sequences up to the bound (valid records x every rejection class, including failures deep inside multi-segment paths) that the decoded objects are a fold of the accepted lines only; the real parser is replayed on each sequence with per-line Ok/Err compared with the model's verdict, and the decoder's result is compared with that of the same file without the rejected lines.",
     note="Trusted: TLC, harness spelling tables. Key/value, event and colour sections are covered by C11's Records check.")
 
+CLAIMS["C20"] = dict(
+    category="model_checking", design_ref="DESIGN.md section 4, C20",
+    technique="TLA+ spec SliderEvents (iterator state machine over a shared tick buffer, New from any state) refined to the declarative event stream, checked by TLC over a parameter grid; every behaviour replayed through the real SliderEventsIter; trace validation (Trace_SliderEvents) of random lattice parameters with random abandon points",
+    text="TLC checks on every parameter set of the grid and every abandon/restart history on one buffer that the iterator's output is exactly the declarative stream (head; per span chronological ticks then a repeat; legacy last tick; tail), with chronological order, tick placement facts and the size_hint lower bound; the real iterator is driven through the same histories and compared event by event, and call-by-call recordings on random lattice parameters must be explained by the composed iterator actions.",
+    note="Trusted: TLC, the unit conversion in harness/src/events.rs. Parameters on a dyadic 1/8 lattice with integer velocities so that float and rational arithmetic take the same branches; off-lattice real parameters are not claimed.")
+CLAIMS["C16"] = dict(
+    category="model_checking", design_ref="DESIGN.md section 4, C16",
+    technique="TLA+ spec CurveLength (calculate_path for vertex-exact segments + calculate_length branch by branch) with the length contract as invariants, checked by TLC over all lattice polylines up to a bound; every case replayed through Curve::new / BorrowedCurve::new / SliderPath::curve in four modes",
+    text="On the sub-domain where the model is exact (Linear and two-point Bezier segments with integer segment lengths) TLC checks for every polyline, typing and requested length that the total distance is exactly L except for the two documented exceptions, that the adjusted curve is the natural one cut or extended along its last segment, and that cumulative lengths start at 0 and never decrease; the real code is compared with the predicted path and lengths on every case.",
+    note="Sub-domain claim: Bezier with >= 3 control points, perfect-curve and Catmull segments (and so the Catmull simplification clause and the 1e-5 rounding clause) are out of reach of a TLA+ model and are NOT covered. Coordinates compared within 1e-3 + 1e-6|c|.")
+CLAIMS["C19"] = dict(
+    category="model_checking", design_ref="DESIGN.md section 4, C19",
+    technique="TLA+ operator CurveLength!PosSeg (clamp, distance, segment index, interpolation weight) with clamping/end-point invariants checked by TLC on every lattice curve; replay through position_at, progress_to_dist, idx_of_dist, interpolate_vertices and the BorrowedCurve twins, plus vertex-fraction and arc-length relations on the real values",
+    text="For every curve of the C16 enumeration TLC computes, for 13 progress values including negatives and values above 1, the clamped distance and the segment and weight of the position and checks clamping and end-point facts; the real accessors are compared with them in four modes, and the real values are additionally checked for 'vertex at its cumulative length' and 'never moves farther than the arc length'.",
+    note="Sub-domain of C16; NaN / subnormal progress and off-lattice curves are not covered.")
+CLAIMS["C18"] = dict(
+    category="model_checking", design_ref="DESIGN.md section 4, C18",
+    technique="TLA+ spec CurveCache (shared buffers, SliderPath cache, eight operations) with invariants Pure and CacheCoherent checked by TLC on all operation sequences up to a bound; every sequence executed on the real API with each result compared bit-for-bit with a fresh computation; Neg configs for the two deviations",
+    text="TLC enumerates every sequence of owned / borrowed / cached computations and mutations over a pool of control-point lists (including empty and single-point) sharing one buffer set and one SliderPath and checks that each computing call returns the curve of its own input and that the cache always belongs to the current inputs; the real API is driven through every sequence and must equal a fresh computation at every step.",
+    note="Trusted: TLC; F(input) is realised as Curve::new on fresh buffers. The pool has 6 lists x 3 length choices; bounds 3-6 operations.")
+
 NOT_YET = "check not built yet in this round (planned, see DESIGN.md section 4)"
 NA = {
     "C17": "real-valued geometry (Hausdorff distance to Bezier/arc/Catmull curves): no discrete state or history for a TLA+ specification to decide; see DESIGN.md section 4, C17",
